@@ -580,7 +580,7 @@ class Circuit:
         group will be ignored.
         """
         # Convert circuit spec and then assign to attribute
-        new_spec = compress_mode_swaps(deepcopy(self.__circuit_spec))
+        new_spec = compress_mode_swaps(self._deepcopy_spec())
         self.__circuit_spec = new_spec
 
     def remove_non_adjacent_bs(self) -> None:
@@ -589,9 +589,17 @@ class Circuit:
         with a mode swap and adjacent beam splitters.
         """
         # Convert circuit spec and then assign to attribute
-        spec = deepcopy(self.__circuit_spec)
+        spec = self._deepcopy_spec()
         new_spec = convert_non_adj_beamsplitters(spec)
         self.__circuit_spec = new_spec
+
+    def _deepcopy_spec(self) -> list:
+        """
+        Creates a deep copy of the circuit spec which still refers to the
+        original Parameter objects, so the circuit remains linked to them.
+        """
+        memo = {id(p): p for p in self.get_all_params()}
+        return deepcopy(self.__circuit_spec, memo)
 
     def _build(self) -> CompiledCircuit:
         """
